@@ -43,6 +43,10 @@ def _fault_env(step):
     out = step["out"]
     if out.endswith((".ttf", ".otf")):
         match = "nanoemoji.write_font "
+    elif out.startswith("pngquant/"):
+        match = f"-o {out}"          # python -m nanoemoji.pngquant -i IN -o OUT
+    elif out.startswith("zopflipng/"):
+        match = f" {out}"            # python -m zopfli.png -y IN OUT  (the only command line naming this path)
     else:
         match = f"--output_file {out}"
     env = {"NEV_FAULT_MATCH": match, "NEV_FAULT_MODE": "fail" if step["op"] == "Fail" else "trunc"}
